@@ -22,6 +22,16 @@ type nsGen struct {
 	withSetattr bool
 	badNames    bool // include invalid names / targets
 	creds       []Cred
+	// tight: two names only and mostly LOOKUP/MKDIR/RMDIR/RENAME/CREATE/REMOVE, so that names are reused for
+	// different objects (and looked up while absent) many times within one history
+	tight bool
+}
+
+func (g *nsGen) names() []string {
+	if g.tight {
+		return dirFileNames[:2]
+	}
+	return dirFileNames
 }
 
 func (g *nsGen) tree() (dirs, files, links []string) {
@@ -71,10 +81,14 @@ func (g *nsGen) next() SOp {
 	dirs, files, links := g.tree()
 	anyObj := append(append(append([]string{}, dirs...), files...), links...)
 	dir := dirs[rng.Intn(len(dirs))]
-	name := dirFileNames[rng.Intn(len(dirFileNames))]
+	names := g.names()
+	name := names[rng.Intn(len(names))]
 	// a directory the client may hold a handle for although it is gone: occasionally name a removed path
 	o := SOp{Cred: g.cred()}
 	k := rng.Intn(100)
+	if g.tight {
+		k = []int{0, 0, 0, 0, 14, 14, 24, 24, 24, 40, 48, 48, 54, 54, 54, 54, 64, 72}[rng.Intn(18)]
+	}
 	switch {
 	case k < 14:
 		o.Kind, o.Dir, o.Name = "lookup", dir, name
@@ -120,7 +134,7 @@ func (g *nsGen) next() SOp {
 	case k < 64:
 		o.Kind, o.Dir, o.Name = "rename", dir, g.childName(dir, false)
 		o.Dir2 = dirs[rng.Intn(len(dirs))]
-		o.Name2 = dirFileNames[rng.Intn(len(dirFileNames))]
+		o.Name2 = names[rng.Intn(len(names))]
 		if isLinkName(o.Name) {
 			o.Name2 = linkNames[rng.Intn(2)]
 		}
@@ -145,6 +159,9 @@ func (g *nsGen) next() SOp {
 			f := files[rng.Intn(len(files))]
 			switch rng.Intn(3) {
 			case 0:
+				if len(links) > 0 && rng.Intn(4) == 0 {
+					f = links[rng.Intn(len(links))] // WRITE on the handle of a symbolic link
+				}
 				o.Kind, o.Dir, o.Off, o.Data = "write", f, uint64(rng.Intn(20)), randBytes(rng, 1+rng.Intn(16))
 				if fl, err := g.shadow.OpenFile(f, os.O_WRONLY, 0); err == nil {
 					fl.WriteAt(o.Data, int64(o.Off))
@@ -198,7 +215,7 @@ func (g *nsGen) childName(dir string, wantDir bool) string {
 		}
 	}
 	if len(names) == 0 || g.rng.Intn(6) == 0 {
-		return dirFileNames[g.rng.Intn(len(dirFileNames))]
+		return g.names()[g.rng.Intn(len(g.names()))]
 	}
 	return names[g.rng.Intn(len(names))]
 }
